@@ -232,6 +232,10 @@ func genHTMLDoc(r *rng, textTags []string, wide bool) (string, []gTok) {
 			if strings.HasSuffix(c, "-") {
 				c += " "
 			}
+			if r.p(25) {
+				// only HALF of the hidden-comment marker: an ordinary comment, reproduced like any other
+				c = r.pick([]string{"/* x", "x */", "/*", "*/", " /* a */ b", "a /* b */", "/* (c) ACME */ generated", "copy static/*/ to dist/*/"})
+			}
 			g.plain(3, "<!--"+c+"-->")
 		case k == 9:
 			c := strings.ReplaceAll(g.text()+r.pick([]string{"", ">", "<b>", "]"}), "]]>", "]] >")
